@@ -63,7 +63,8 @@ fn hist_prop(id: &str) -> Option<histprop::HistProp> {
 
 fn check(id: &'static str, tier: Tier) -> i32 {
     if let Some(hp) = hist_prop(id) {
-        let ctx = Ctx::new(id, tier, "exploration");
+        let mut ctx = Ctx::new(id, tier, "exploration");
+        ctx.hang_secs = Some(30);
         let acc = Accum::new();
         let c = histprop::check(&ctx, &hp, &acc);
         if c != EXIT_OK {
